@@ -20,10 +20,13 @@ pub struct Spec {
     pub filtered: bool,
     /// table entries (paths) this call is allowed to write
     pub path: Vec<Path>,
+    /// second acceptable outcome with its own after-state: used where the documentation does not
+    /// say whether a non-zero entry WITHOUT the PRESENT bit counts as "mapped"
+    pub alt: Option<(Code, RefMmu)>,
 }
 
 fn base(pre: &RefMmu, class: Class) -> Spec {
-    Spec { accept: vec![], any_err: false, after: pre.clone(), exp_allocs: 0, exp_frame: None, exp_token: None, class, filtered: false, path: vec![] }
+    Spec { accept: vec![], any_err: false, after: pre.clone(), exp_allocs: 0, exp_frame: None, exp_token: None, class, filtered: false, path: vec![], alt: None }
 }
 
 fn map_spec(pre: &RefMmu, size: Size, page: u64, frame: u64, flags: u64, pf: u64, log: &[AllocEv]) -> Result<Spec, String> {
@@ -97,6 +100,9 @@ pub fn spec(pre: &RefMmu, step: &Step, log: &[AllocEv]) -> Result<Spec, String> 
                     s.accept = vec![Code::Ok];
                     s.exp_frame = Some(pre.leaves[&full].frame);
                     s.exp_token = Some(*page);
+                    if pre.leaves[&full].flags & P == 0 {
+                        s.alt = Some((Code::NotMapped, pre.clone()));
+                    }
                     s.after.leaves.remove(&full);
                 }
             }
@@ -115,6 +121,9 @@ pub fn spec(pre: &RefMmu, step: &Step, log: &[AllocEv]) -> Result<Spec, String> 
                     s.accept = vec![Code::Ok];
                     s.exp_token = Some(*page);
                     let fl = if *size == Size::K4 { *flags } else { *flags | HUGE };
+                    if pre.leaves[&full].flags & P == 0 {
+                        s.alt = Some((Code::NotMapped, pre.clone()));
+                    }
                     s.after.leaves.get_mut(&full).unwrap().flags = fl;
                 }
             }
@@ -131,6 +140,9 @@ pub fn spec(pre: &RefMmu, step: &Step, log: &[AllocEv]) -> Result<Spec, String> 
                 Class::MappedExact => {
                     s.accept = vec![Code::Ok];
                     s.exp_frame = Some(pre.leaves[&full].frame);
+                    if pre.leaves[&full].flags & P == 0 {
+                        s.alt = Some((Code::NotMapped, pre.clone()));
+                    }
                 }
             }
             Ok(s)
@@ -176,6 +188,11 @@ pub fn spec(pre: &RefMmu, step: &Step, log: &[AllocEv]) -> Result<Spec, String> 
 }
 
 /// translate_page without cloning the model: (class, any_err, accepted code, expected frame)
+/// is the leaf of (page, size) a non-present (but non-zero) entry?
+pub fn leaf_not_present(m: &RefMmu, page: u64, size: Size) -> bool {
+    m.leaves.get(&Path::of(page, size.path_len())).map_or(false, |l| l.flags & P == 0)
+}
+
 pub fn translate_page_expect(m: &RefMmu, page: u64, size: Size) -> (Class, bool, Code, Option<u64>) {
     let class = m.class(page, size);
     match class {
